@@ -146,10 +146,18 @@ func H_Traversal() {
 	// relative view and keyword view
 	if rel, rdiags := hcl.RelTraversalForExpr(expr); !rdiags.HasErrors() {
 		vf.Assert(len(rel) == len(trav), "relative-traversal-same-length")
+		// applied to the scope as an object, the relative view computes the same thing
+		rv, rd := rel.TraverseRel(cty.ObjectVal(ctx.Variables))
+		vf.Assert(rd.HasErrors() == d2.HasErrors() && (rd.HasErrors() || rv.RawEquals(v2)), "relative-traversal-from-scope-object-same-value")
 	}
 	if kw := hcl.ExprAsKeyword(expr); kw != "" {
 		vf.Assert(len(trav) == 1 && trav.RootName() == kw, "keyword-view-is-root-name")
 	}
+	// taking the static views must not change the expression: it still evaluates, and reads, the same
+	v3, d3 := expr.Value(ctx)
+	trav2, s2 := hcl.AbsTraversalForExpr(expr)
+	vf.Assert(d3.HasErrors() == d2.HasErrors() && (d3.HasErrors() || v3.RawEquals(v2)), "static-views-leave-evaluation-unchanged")
+	vf.Assert(!s2.HasErrors() && sameSteps(trav, trav2), "static-views-leave-the-traversal-unchanged")
 	vf.Reach("traversal")
 }
 
@@ -439,5 +447,11 @@ func H_StaticGen() {
 		}
 		vf.Reach("map")
 	}
+	// taking every static view must leave the expression as it was
+	_, _ = hcl.RelTraversalForExpr(expr)
+	_ = hcl.ExprAsKeyword(expr)
+	_, _ = hcl.ExprCall(expr)
+	again, ad := expr.Value(ctx)
+	vf.Assert(!ad.HasErrors() && again.RawEquals(whole), "static-views-leave-evaluation-unchanged")
 	vf.Reach("done")
 }
